@@ -6,7 +6,10 @@ import CedarVerif.Cedar.SymCompile
    (enumerated / action type: `SymEntityData::members`), EXPR in the expression grammar.
    Reply: the term `Cedar.SymC.compile` produces on the literal environment, which must be a folded literal option term:
      (some (b true)) | (some (i 3)) | (some (s "x")) | (some (e "T" "id")) | (none) | (reject) (= CompileError::TypeError)
-   `(outside-model)` for expressions outside the declared fragment `SFrag`; `(nonliteral)` can never be printed
+   Second form `(symc REQ (etys …) (ctxty ("attr" req|opt bool|long|string|(entity "T"))…) EXPR)` (attributes sorted by
+   name): the context term is `ctxTermOf REQ.context ctxty` (= `Term::from_value`), the fragment is `SFrag2`
+   (+ `context`, `e.a`, `e has a`); `(some (rec))` is printed for a folded record term.
+   `(outside-model)` for expressions outside the declared fragment `SFrag` / `SFrag2`; `(nonliteral)` can never be printed
    (theorem `compile_correct_fragment`) and would be a diff. -/
 namespace CedarVerif.Ops.SymCompileOp
 open CedarVerif Cedar Cedar.SymC
@@ -24,8 +27,23 @@ def encPrimTerm : TermPrim → String
   | .string s => encValue (.prim (.string s))
   | .entity u => encValue (.prim (.entityUID u))
 
+def decCtxAttrTy : Sexp → Option CtxAttrTy
+  | .atom "bool" => some .bool
+  | .atom "long" => some .long
+  | .atom "string" => some .string
+  | .list [.atom "entity", .str ty] => some (.entity ty)
+  | _ => none
+
+def decCtxAttr : Sexp → Option (String × CtxAttrTy × Bool)
+  | .list [.str a, .atom "req", ty] => do let ty ← decCtxAttrTy ty; some (a, ty, true)
+  | .list [.str a, .atom "opt", ty] => do let ty ← decCtxAttrTy ty; some (a, ty, false)
+  | _ => none
+
 def encFolded : CResult → String
   | .ok (.some (.prim p)) => "(some " ++ encPrimTerm p ++ ")"
+  | .ok (.some .recNil) => "(some (rec))"
+  | .ok (.some (.recCons _ _ _)) => "(some (rec))"
+  | .error .noSuchAttr => "(reject)"
   | .ok (.none _) => "(none)"
   | .ok _ => "(nonliteral)"
   | .error .typeError => "(reject)"
@@ -38,6 +56,15 @@ def handleSymC (x : Sexp) : Option String :=
     | some req, some etys, some e =>
       if inFrag e then some (encFolded (compile (litEnv req etys) e)) else some "(outside-model)"
     | _, _, _ => some "(bad-op)"
+  | .list [.atom "symc", req, .list (.atom "etys" :: etys), .list (.atom "ctxty" :: attrs), e] =>
+    match decRequest req, etys.mapM decEty, attrs.mapM decCtxAttr, decExpr e with
+    | some req, some etys, some attrs, some e =>
+      if inFrag2 e then
+        match ctxTermOf req.context attrs with
+        | some ctxT => some (encFolded (compile (litEnv2 req etys ctxT) e))
+        | none => some "(outside-model)"
+      else some "(outside-model)"
+    | _, _, _, _ => some "(bad-op)"
   | _ => none
 
 end CedarVerif.Ops.SymCompileOp
